@@ -12,6 +12,7 @@ CONSTANTS
   Lag = 0
   MaxFaults = 1
   MaxPolls = 1
+  MaxRestarts = 0
   FixH13 = TRUE
   FixRevertVerify = TRUE
   FixUnderflow = TRUE
